@@ -157,6 +157,18 @@ CHECKS["C20"] = dict(
    note=TB + "log only in the KL theorems (reals) and the oracle (double); GE/ECAT-specific normalisation files not exercised.",
    design="DESIGN.md §4 C20")
 
+CHECKS["C03"] = dict(
+   technique="Lean 4 proofs (symmetry operation rebuilds the bin, operations are voxel bijections, cache key injective, cache state machine refines the specification for every history); translator tie for the 48 symmetry-operation functions, both decision trees and cache_key; differential correspondence + reference-row oracle on the real ProjMatrixByBinUsingRayTracing",
+   text="Proof: for every number of views, switch combination and bin the operation chosen by the decision trees applied to the basic bin gives the bin back, find_basic_bin is idempotent, every operation is a "
+        "bijection of voxel indices that keeps rows duplicate-free and inside a symmetric x/y range, find_transform_z is exact and carries the axial tube of the basic bin onto that of the bin, the cache key is "
+        "injective on the guarded box, and for EVERY history of get / clear_cache / cache-mode / set_* / set_up events every returned row equals the operation applied to compute(basic bin) for the geometry last "
+        "set up (refinement by induction over histories; compute = the ray tracer, uninterpreted). The symmetry-operation member functions, the two decision trees and cache_key are regenerated from the C++ source on "
+        "every run and proved equal to the model (tie T, 51 kernels). Tie (C): every bin of generated geometries x 32 switch combinations x 3 cache modes x ray counts on the real classes, exact comparison incl. "
+        "cache histories and re-set_up; oracle: each row against the row of a fresh matrix without symmetries and cache (library tolerance 2e-3, boundary ties screened geometrically), non-negative, no duplicates, "
+        "inside the image. The in-image clause fails in z for end-ring bins (listed known finding with negative witness and _partial theorem); a set_up defect found this way was repaired in /repo.",
+   note=TB + "Siddon ray tracing and the TOF kernel are uninterpreted (their equivariance is oracle-only); only the cylindrical branch is modelled; 32-bit overflow not modelled; translator trusts that constructors store arguments in the members of the same name.",
+   design="DESIGN.md §4 C03")
+
 NOT_YET = {}
 
 def main():
